@@ -16,6 +16,89 @@ import gen
 from gen import GenError, REPO
 
 OPS = {"==": "CEq", "!=": "CNe", "<": "CLt", "<=": "CLe", ">": "CGt", ">=": "CGe"}
+def _iter_pushes(t, name):
+    """maximum number of `stack->items[stack->sp++]` stores on a path through iter_<x>_next (exec.c).
+    The functions are straight-line code with if/else blocks, `goto _stop_iter` and `return`s: the body is cut
+    at the top-level `return ERROR_SUCCESS;` statements (main path, _stop_iter path); inside a segment an
+    if/else counts as the larger branch."""
+    m = re.search(r"static\s+int\s+%s\s*\([^)]*\)\s*\{" % re.escape(name), t)
+    if not m:
+        raise GenError("translator cannot parse exec.c: " + name)
+    i = m.end()
+    depth, j = 1, i
+    while depth and j < len(t):
+        depth += {"{": 1, "}": -1}.get(t[j], 0)
+        j += 1
+    body = re.sub(r"//[^\n]*|/\*.*?\*/", "", t[i:j - 1], flags=re.S)
+    PUSH = re.compile(r"stack->items\s*\[\s*stack->sp\+\+\s*\]")
+    if "while" in body or "for (" in body or "for(" in body or re.search(r"stack->sp\s*(\+=|-=|--|=[^=])", body):
+        raise GenError("translator cannot parse exec.c: %s changes stack->sp in a way the push counter does not understand" % name)
+
+    def count(src):
+        """max pushes of a statement sequence"""
+        total, k = 0, 0
+        while k < len(src):
+            mm = re.compile(r"\s*if\s*\(").match(src, k)
+            if mm:
+                k = _skip_paren(src, mm.end() - 1)
+                a, k = _stmt(src, k)
+                b = ""
+                me = re.compile(r"\s*else\b").match(src, k)
+                if me:
+                    b, k = _stmt(src, me.end())
+                total += max(count(a), count(b))
+                continue
+            st, k2 = _stmt(src, k)
+            if k2 <= k:
+                break
+            total += len(PUSH.findall(st)) if not st.lstrip().startswith("{") else count(st.strip()[1:-1])
+            k = k2
+        return total
+
+    segs = re.split(r"\n  return ERROR_SUCCESS\s*;", body)
+    n = max(count(sg) for sg in segs)
+    if n < 1 or len(PUSH.findall(body)) < n:
+        raise GenError("translator cannot parse exec.c: no pushes found in " + name)
+    return n
+
+
+def _skip_paren(src, k):
+    depth = 0
+    while k < len(src):
+        depth += {"(": 1, ")": -1}.get(src[k], 0)
+        k += 1
+        if depth == 0:
+            return k
+    return k
+
+
+def _stmt(src, k):
+    """one statement starting at k: a { block } or text up to the next ';' (labels `x:` are skipped)"""
+    while k < len(src) and src[k].isspace():
+        k += 1
+    if k >= len(src):
+        return "", k
+    if src[k] == "{":
+        depth, j = 0, k
+        while j < len(src):
+            depth += {"{": 1, "}": -1}.get(src[j], 0)
+            j += 1
+            if depth == 0:
+                break
+        return src[k:j], j
+    j = k
+    depth = 0
+    while j < len(src):
+        c = src[j]
+        depth += {"(": 1, ")": -1}.get(c, 0)
+        if c == ";" and depth == 0:
+            return src[k:j + 1], j + 1
+        if c == ":" and depth == 0 and re.match(r"\w+$", src[k:j].strip() or " ") and src[j + 1:j + 2] != ":":
+            return "", j + 1      # a label
+        j += 1
+    return src[k:], len(src)
+
+
 OPRE = r"(==|!=|<=|>=|<|>)"
 
 
@@ -143,6 +226,9 @@ def gen_limits():
         raise GenError("translator cannot parse exec.c: iterator stack checks (found %d)" % len(its))
     o.lines.append("Definition vm_iter_checks : list (Z * cmpop) := [%s]." % "; ".join("(%s, %s)" % (k, OPS[op]) for _, k, op in its))
     o.lines.append("(* %s *)" % ", ".join(n for n, _, _ in its))
+    o.comment("the slots each iterator writes after its room test: `stack->items[stack->sp++]` stores on the longest path")
+    pushes = [_iter_pushes(t, n) for n, _, _ in its]
+    o.lines.append("Definition vm_iter_pushes : list Z := [%s]." % "; ".join(str(k) for k in pushes))
 
     o.comment("exec.c clock read: `if (context->timeout > 0ULL && ++cycle OP N) { elapsed...; if (elapsed_time OP2 context->timeout) ...; cycle = R; }`")
     m = _one(rel, t, r"if\s*\(\s*context->timeout\s*>\s*0ULL\s*&&\s*\+\+cycle\s*" + OPRE + r"\s*(\w+)\s*\)\s*\{\s*"
